@@ -91,7 +91,7 @@ for pid in ids:
             'replay_cmd_template': f'./check {pid} --replay {{path}}',
             'engine': 'tlc+replay',
             'level_claimed': {'category': 'model_checking', 'text': c['text'], 'design_ref': c['sec']},
-            'level_note': c['note'] + '; the seeded input families of the drivers were extended after eleven rounds of independent seeded changes (DESIGN.md 9.5, 9.8; seeded/<id>/)',
+            'level_note': c['note'] + '; the seeded input families of the drivers were extended after twelve rounds of independent seeded changes (DESIGN.md 9.5, 9.8; seeded/<id>/)',
             'technique': c['tech'],
         })
 claimed = {c['property_id'] for c in checks}
